@@ -86,6 +86,7 @@ func genericPackages(thorough bool) []*pkgSpec {
 		{name: "UseG2", decl: "type UseG2 struct {\n\tg G2[int]\n\ts string\n}", tcs: all, deps: []string{"G2"}},
 		{name: "UseG7", decl: "type UseG7 struct {\n\tg G7[int, string]\n}", tcs: all, deps: []string{"G7"}},
 		{name: "UseG5", decl: "type UseG5 struct {\n\tg G5[string, int]\n\th G5[int, int]\n}", tcs: all, deps: []string{"G5"}},
+		{name: "UseG6", decl: "type UseG6 struct {\n\tg G6[int, string]\n\tn int\n}", tcs: all, deps: []string{"G6"}},
 		{name: "UseG8", decl: "type UseG8 struct {\n\tn int\n\tg G8[string, int]\n}", tcs: all, deps: []string{"G8"}},
 	}
 	mark := func(t *target) { t.Counts = append(t.Counts, fmt.Sprintf("generic/type-params=%d", len(t.TParams))) }
@@ -174,6 +175,11 @@ func recursivePackages(thorough bool) []*pkgSpec {
 	p.addTyped("rectrue", "nested-generic", typeSpec{name: "R10", decl: "type R10 struct {\n\ta Wrap[int]\n\tb string\n}", tcs: all, kinds: []string{"nested-generic-struct"}}, all, recTrue)
 	out = append(out, p)
 
+	// recursive=true over three and four levels: Root -> Mid -> Leaf, where Mid is reached
+	// through each container kind or directly; Leaf holds a slice, a map and a pointer (not
+	// comparable), a map-free variant serves Ord and Hashable
+	out = append(out, chainPackages()...)
+
 	// recursive=true and the visibility of the nested struct's fields: a plain struct of the
 	// working package with (a) exported, (b) mixed, (c) unexported fields, each holding a slice,
 	// a map and a pointer, reached directly, through a pointer and through a slice
@@ -206,6 +212,112 @@ func recursivePackages(thorough bool) []*pkgSpec {
 	p.addType("Bag", bag)
 	p.addTyped("norec", "nested-struct-with-slice", typeSpec{name: "C1", decl: "type C1 struct {\n\ta InP\n\tb int\n}", tcs: only(Clone), kinds: []string{"nested-public-struct"}}, all, plain)
 	p.addTyped("norec", "named-slice", typeSpec{name: "C2", decl: "type C2 struct {\n\ta int\n\tb Bag\n}", tcs: only(Clone), kinds: []string{"named-slice"}}, all, plain)
+	out = append(out, p)
+	return out
+}
+
+var chainContainers = []struct{ label, sfx, typ string }{
+	{"slice", "Sl", "[]%s"},
+	{"pointer", "Pt", "*%s"},
+	{"option", "Op", "fp.Option[%s]"},
+	{"seq", "Sq", "fp.Seq[%s]"},
+	{"gomap", "Gm", "map[string]%s"},
+	{"direct", "Di", "%s"},
+}
+
+// addChain declares Leaf<sfx> and the given intermediate levels and Root<sfx>, and derives
+// Root<sfx> with recursive=true. fields are the root's fields after "n int", with %s standing
+// for the first intermediate type; mids[i] is the container (format string) in which level
+// i+1 sits inside level i (the last one holds the leaf directly).
+func (p *pkgSpec) addChain(label, sfx string, withMap bool, rootFields []string, inner []string) {
+	leaf := "Leaf" + sfx
+	if withMap {
+		p.addType(leaf, fmt.Sprintf("type %s struct {\n\tD []int\n\tm map[string]int\n\tp *int\n}", leaf))
+	} else {
+		p.addType(leaf, fmt.Sprintf("type %s struct {\n\tD []int\n\tp *int\n}", leaf))
+	}
+	// levels: Mid<sfx> (first), Mid<sfx>2 ... the last one has the leaf as a direct field
+	next := leaf
+	for i := len(inner); i >= 0; i-- {
+		name := "Mid" + sfx
+		if i > 0 {
+			name = fmt.Sprintf("Mid%s%d", sfx, i+1)
+		}
+		field := next
+		if i < len(inner) {
+			field = fmt.Sprintf(inner[i], next)
+		}
+		p.addType(name, fmt.Sprintf("type %s struct {\n\tl %s\n\ts string\n}", name, field))
+		next = name
+	}
+	decl := "type Root" + sfx + " struct {\n\tn int\n"
+	for i, f := range rootFields {
+		decl += fmt.Sprintf("\t%c %s\n", 'a'+i, fmt.Sprintf(f, "Mid"+sfx))
+	}
+	decl += "}"
+	tcs := only(Ord, Hashable)
+	if withMap {
+		tcs = only(Eq, Monoid, Clone, Show)
+	}
+	for _, f := range append(append([]string{}, rootFields...), inner...) {
+		if strings.HasPrefix(f, "map[") {
+			tcs = tcs.and(only(Eq, Monoid, Clone, Show))
+		}
+	}
+	p.addTyped("rectrue", label, typeSpec{name: "Root" + sfx, decl: decl, tcs: tcs, kinds: []string{"chain"}}, allTC(), func(t *target) {
+		t.RecTrue = true
+		t.Counts = append(t.Counts, "directive/recursive=true", fmt.Sprintf("chain-depth/%d", 3+len(inner)))
+		for _, f := range append(append([]string{}, rootFields...), inner...) {
+			for _, c := range chainContainers {
+				if c.typ == f {
+					t.Counts = append(t.Counts, "chain-level-reached-through/"+c.label)
+				}
+			}
+		}
+	})
+}
+
+func chainPackages() []*pkgSpec {
+	var out []*pkgSpec
+	// depth 3, one container kind per chain
+	for i := 0; i < len(chainContainers); i += 2 {
+		p := &pkgSpec{Name: "rectrue/chain-" + chainContainers[i].label + "-" + chainContainers[i+1].label}
+		for _, c := range chainContainers[i : i+2] {
+			p.addChain("chain3/"+c.label, c.sfx+"M", true, []string{c.typ}, nil)
+			p.addChain("chain3/"+c.label, c.sfx+"H", false, []string{c.typ}, nil)
+		}
+		out = append(out, p)
+	}
+	// the same intermediate type twice, container first and direct first
+	p := &pkgSpec{Name: "rectrue/chain-order"}
+	for _, v := range []struct {
+		label, sfx string
+		fields     []string
+	}{
+		{"chain3/slice-then-direct", "SD", []string{"[]%s", "%s"}},
+		{"chain3/direct-then-slice", "DS", []string{"%s", "[]%s"}},
+		{"chain3/pointer-then-direct", "PD", []string{"*%s", "%s"}},
+		{"chain3/direct-then-option", "DO", []string{"%s", "fp.Option[%s]"}},
+	} {
+		p.addChain(v.label, v.sfx+"M", true, v.fields, nil)
+		p.addChain(v.label, v.sfx+"H", false, v.fields, nil)
+	}
+	out = append(out, p)
+	// depth 4 (and 5)
+	p = &pkgSpec{Name: "rectrue/chain-depth4"}
+	for _, v := range []struct {
+		label, sfx string
+		root       string
+		inner      []string
+	}{
+		{"chain4/slice>pointer", "A", "[]%s", []string{"*%s"}},
+		{"chain4/option>seq", "B", "fp.Option[%s]", []string{"fp.Seq[%s]"}},
+		{"chain4/direct>gomap", "C", "%s", []string{"map[string]%s"}},
+		{"chain5/pointer>direct>slice", "E", "*%s", []string{"%s", "[]%s"}},
+	} {
+		p.addChain(v.label, v.sfx+"M", true, []string{v.root}, v.inner)
+		p.addChain(v.label, v.sfx+"H", false, []string{v.root}, v.inner)
+	}
 	out = append(out, p)
 	return out
 }
